@@ -20,7 +20,14 @@ ASSUMPTIONS = ["copy.copy of a PacketSequencer is an independent sequencer (used
 FLOORS = {"lockstep-next": 1}
 
 
+
 def shards(tier, seed):
+    from vf import engine
+
+    return engine.with_interpreter_options(_plain_shards(tier, seed), key="kind")
+
+
+def _plain_shards(tier, seed):
     pairs = [(0, 5), (-6, 3), (240, -2), (10 ** 9, 7)]  # (a, b): starts a and 7*b, negative ones included ("arbitrary start values")
     if tier == "quick":
         out = [{"kind": "dfs", "depth": 9, "a": a, "b": b, "first": f, "pre": pre} for (a, b) in pairs[:2] for f in range(3) for pre in (0, 6, 17)]
